@@ -148,7 +148,7 @@ Section WithSorts.
                                   Permutation (blobs q) (if keeps_full m t then retyped p else []))
                       (packs_of_type t (unmarked files)) (iter_type sort_p ix t).
   Proof.
-    intros m files ix H t. destruct (index_char sort_e sort_i _ _ _ H t) as (I1 & I2 & _).
+    intros m files ix H t. destruct (index_char_dbg sort_e sort_i _ _ _ H t) as (I1 & I2 & _).
     unfold iter_type. rewrite I1, I2.
     set (qs := packs_of_type t (unmarked files)).
     assert (Full_case : Forall2 (fun p q => pid q = pid p /\ psize q = None /\ Permutation (blobs q) (retyped p))
@@ -163,6 +163,6 @@ Section WithSorts.
         clear -Sp. induction Sp as [|a l Hs IH Hh]; constructor; [assumption|].
         destruct Hh; constructor. unfold le_pack. lia.
       - intros; lia. }
-    destruct t, m; cbn [keeps_full mode_entries sorted_entries]; try exact Full_case; apply iter_packs_nil.
+    destruct t, m; cbn [keeps_full mode_entries sorted_entries_with]; try exact Full_case; apply iter_packs_nil.
   Qed.
 End WithSorts.
